@@ -9,8 +9,13 @@ def endianOf : String → Option Endian
 
 /-- case: `<kind> <be|le> <hexbuf> <pos>` with kind ∈ u8 u16 u32 u64 i8 i16 i32 i64,
     or `bv <len> <hexbuf> <pos>` -/
+def stripV (ws : List String) : List String :=
+  match ws with
+  | k :: rest => (if k.startsWith "v" then (k.drop 1).toString else k) :: rest
+  | [] => []
+
 def model (line : String) : String :=
-  match words line with
+  match stripV (words line) with
   | ["bv", len, hex, pos] =>
     match len.toNat?, bytesOfHex hex, pos.toNat? with
     | some len, some s, some i => showRes hexOfBytes (byteVecP len s i)
@@ -33,7 +38,7 @@ def model (line : String) : String :=
 
 /-- the oracle: the spec's denotation of the window, independent of the model -/
 def expected (line : String) : String :=
-  match words line with
+  match stripV (words line) with
   | ["bv", len, hex, pos] =>
     match len.toNat?, bytesOfHex hex, pos.toNat? with
     | some len, some s, some i =>
@@ -89,6 +94,7 @@ def gen (seed n : Nat) (tier : String) (emit : String → IO Unit) : IO Unit := 
         for lead in [0, 3] do
           let s : Bytes := (List.range (lead + rem)).map fun j => UInt8.ofNat (0x81 + 17 * j)
           emit s!"{k} {e} {hexOfBytes s} {lead}"
+          emit s!"v{k} {e} {hexOfBytes s} {lead}"
   -- boundary 32/64-bit patterns
   let pats : List Bytes := [
     [0,0,0,0,0,0,0,0], [0xff,0xff,0xff,0xff,0xff,0xff,0xff,0xff], [0x80,0,0,0,0,0,0,0],
@@ -108,9 +114,11 @@ def gen (seed n : Nat) (tier : String) (emit : String → IO Unit) : IO Unit := 
     let (e, r5) := r4.pick ["be", "le"]
     r := r5
     emit s!"{k} {e} {hexOfBytes s} {pos}"
+    emit s!"v{k} {e} {hexOfBytes s} {pos}"
     let (bl, r6) := r.nat 14
     r := r6
     emit s!"bv {bl} {hexOfBytes s} {pos}"
+    emit s!"vbv {bl} {hexOfBytes s} {pos}"
 
 /-- non-trivial: a successful multi-byte decode or a short-buffer failure at a non-zero cursor -/
 def nontrivial (line : String) : Bool :=
